@@ -215,11 +215,15 @@ def scanTake (c : Cfg) (r : Reader) (b : Bucket) : Nat → State → Scan → St
       match scanTake c r b n s' sc' with
       | (s'', l) => (s'', e :: l)
 
+/-- `MemXModel.Select` refuses `start > end` (both given) -/
+def badRange (lo : Nat) (hi : Option Nat) : Bool :=
+  match hi with | some h => decide (h < lo) | none => false
+
 /-- `XMCache.Select(bucket, lo, hi)` followed by `n` calls of `Next` (`none` = the range is refused:
 `start > end`); the contract sees key and value of every item -/
 def select (c : Cfg) (r : Reader) (s : State) (b : Bucket) (lo : Nat) (hi : Option Nat) (n : Nat) :
     State × Option (List (Key × Nat)) :=
-  if (match hi with | some h => decide (h < lo) | none => false) then (s, none)
+  if badRange lo hi then (s, none)
   else
     match openScan c r s b lo hi with
     | (s1, sc) =>
